@@ -17,7 +17,7 @@ use std::cell::RefCell;
 use std::io::{BufRead, BufReader, Write};
 use std::rc::Rc;
 
-const OPS: [&str; 12] = [
+const OPS: [&str; 14] = [
     "lzma_decompress",
     "lzma2_decompress",
     "xz_decompress",
@@ -30,6 +30,8 @@ const OPS: [&str; 12] = [
     "lzma2_compress",
     "xz_compress",
     "Stream (write + flush after every piece, finish)",
+    "lzma_decompress_with_options (allow_incomplete set, generous limit)",
+    "Stream with allow_incomplete (write* + finish)",
 ];
 const FAULTS: [&str; 12] = [
     "sink write k fails",
@@ -132,6 +134,29 @@ fn exec(job: &Job, f: &Fault) -> Res {
                 }
                 s.finish().map(|_| ()).map_err(|e| format!("finish: {}", e))
             }
+            12 => lzma_rs::lzma_decompress_with_options(
+                &mut reader,
+                &mut w,
+                &Options { unpacked_size: lzma_rs::decompress::UnpackedSize::ReadFromHeader, memlimit: Some(usize::MAX), allow_incomplete: true },
+            )
+            .map_err(|e| e.to_string()),
+            13 => {
+                // "incomplete input allowed" is about input that ENDS early, not about failures
+                let o = Options { unpacked_size: lzma_rs::decompress::UnpackedSize::ReadFromHeader, memlimit: None, allow_incomplete: true };
+                let mut s = Stream::new_with_options(&o, w.clone());
+                let mut buf = [0u8; 700];
+                loop {
+                    let n = match reader.read(&mut buf) {
+                        Ok(n) => n,
+                        Err(e) => return Err(format!("source: {}", e)),
+                    };
+                    if n == 0 {
+                        break;
+                    }
+                    s.write_all(&buf[..n]).map_err(|e| format!("write: {}", e))?;
+                }
+                s.finish().map(|_| ()).map_err(|e| format!("finish: {}", e))
+            }
             11 => {
                 // small pieces, flush() after every one: whatever flush hands over early must not
                 // be handed over again later
@@ -182,7 +207,7 @@ fn exec(job: &Job, f: &Fault) -> Res {
 
 fn make_job(rng: &mut Rng, op: usize) -> Option<Job> {
     match op {
-        0 | 3 | 5 | 11 => {
+        0 | 3 | 5 | 11 | 12 | 13 => {
             let props = if op == 3 || rng.chance(1, 2) { Props::new(rng.below(4) as u32, rng.below(3) as u32, rng.below(4) as u32) } else { Props::new(3, 0, 2) };
             let mut it = Interp::new();
             let mut pg = ProgGen::new();
@@ -263,7 +288,7 @@ fn fam_jobs(ctx: &CaseCtx, cov: &mut Cov) -> CaseOut {
     cov.inc("op", op as u32);
     cov.max("sink_write_calls", base.writes);
     cov.max("source_calls", base.src_calls);
-    let is_decoder_with_flush = matches!(op, 0 | 1 | 3 | 4 | 5 | 11);
+    let is_decoder_with_flush = matches!(op, 0 | 1 | 3 | 4 | 5 | 11 | 12 | 13);
     let data = |what: &str| {
         J::obj()
             .set("input_hex", J::s(crate::util::hex_trunc(&job.input, 4096)))
@@ -474,7 +499,7 @@ pub fn monitor(tier: Tier) -> Monitor {
     Monitor {
         id: "C12",
         level: "fault_enumeration",
-        rule: "per job (one of 12 operations: 3 one-shot decoders, 2 raw decoders, Stream fed from the source without and with flush() after every piece, 5 encoder configurations; the fault-free output of every decoder is first compared with the reference; inputs sized so that the window is flushed several times) a fault-free run counts the sink and source calls, then: every sink write k fails (all k up to 400, thorough 5000), flush fails, every source call k fails (all k up to 300, thorough 3000; sampled beyond), Interrupted once at every 7th call, underlying reads failing behind BufReader(1/7/64), sinks accepting 1 byte / random short counts per write, source and sink failures with other error kinds (UnexpectedEof, WouldBlock, InvalidData, WriteZero, TimedOut, BrokenPipe), and two-event faults (a short-writing sink whose k-th write then fails); verdict rules: injected fault => Err (not Ok, not panic) and the sink is a prefix of the fault-free output; Ok => sink equals the fault-free output; LZMA/LZMA2 decoders leave nothing unflushed; evaluations = faulted executions; distinct by hash of (input, operation, fault)",
+        rule: "per job (one of 14 operations: 3 one-shot decoders, the one-shot LZMA decoder and Stream once more with allow_incomplete set, 2 raw decoders, Stream fed from the source without and with flush() after every piece, 5 encoder configurations; the fault-free output of every decoder is first compared with the reference; inputs sized so that the window is flushed several times) a fault-free run counts the sink and source calls, then: every sink write k fails (all k up to 400, thorough 5000), flush fails, every source call k fails (all k up to 300, thorough 3000; sampled beyond), Interrupted once at every 7th call, underlying reads failing behind BufReader(1/7/64), sinks accepting 1 byte / random short counts per write, source and sink failures with other error kinds (UnexpectedEof, WouldBlock, InvalidData, WriteZero, TimedOut, BrokenPipe), and two-event faults (a short-writing sink whose k-th write then fails); verdict rules: injected fault => Err (not Ok, not panic) and the sink is a prefix of the fault-free output; Ok => sink equals the fault-free output; LZMA/LZMA2 decoders leave nothing unflushed; evaluations = faulted executions; distinct by hash of (input, operation, fault)",
         assumptions: vec![
             "oracle = the fault-free run of the same call".into(),
             "ErrorKind::Interrupted may be retried (Ok with the right output) or reported (Err); only ErrorKind::Other must surface".into(),
